@@ -1,3 +1,67 @@
-import EspadaVerif.Model.Range
+/-
+C17 — Range text is canonical: equal ranges print identically and runs are merged.
+
+In the model a range is the HISTORY of its construction (the list of inserts, newest first); "equal ranges"
+are histories with the same `lookup`.
+-/
+import EspadaVerif.Lemmas.TextDefs
+
 namespace EspadaVerif.C17
+open EspadaVerif TextDefs
+
+variable {W : Type}
+
+/-- **C17 (canonical).** The text of a range depends only on its contents, not on how or in what order it was
+built. -/
+theorem C17_canonical (wt : WText W) (r₁ r₂ : HandRange W) (h : ∀ c, r₁.lookup c = r₂.lookup c) :
+    showRange wt r₁ = showRange wt r₂ ∧ rankPairs wt r₁ = rankPairs wt r₂
+    ∧ (∀ o₁ o₂, orphans wt r₁ = .ok o₁ → orphans wt r₂ = .ok o₂ → ∀ c, o₁.lookup c = o₂.lookup c) := by
+  sorry
+
+/-- the token written for a maximal run `(start, length, weight)` of a row whose top rank is `first`:
+`X+` when the run starts at the top and has length ≥ 2, a single rank pair for length 1, `X-Y` otherwise -/
+def runToken (first : Nat) (mk : Nat → RankPair) (run : Nat × Nat × W) : Token W :=
+  let (s, n, w) := run
+  if s = 0 ∧ n ≥ 2 then ⟨.bottomClosed (mk (first + n - 1)), w⟩
+  else if n = 1 then ⟨.singleRank (mk (first + s)), w⟩
+  else ⟨.doubleClosed (mk (first + s)) (first + s + n - 1), w⟩
+
+/-- **C17 (runs).** For every row (pockets: `first = 0`; kickers under a high card `h`: `first = h + 1`) and every
+table of reported rank pairs, the formatter's state machine emits exactly one token per maximal run of
+adjacent rank pairs with equal weight, in row order. -/
+theorem C17_runs (wt : WText W) (rps : List (RankPair × W)) (first : Nat) (hf : first ≤ 12) (mk : Nat → RankPair) :
+    rowTokens wt rps first 12 mk (List.range' first (13 - first))
+      = .ok ((Spec.runs wt.eq ((List.range' first (13 - first)).map fun k => rpLookup rps (mk k))).map (runToken first mk)) := by
+  sorry
+
+/-- the runs of `Spec.runs` are disjoint, in order, and maximal: two consecutive runs either do not touch or carry
+different weights; every run is weight-constant and covers only present entries; every present entry is covered -/
+theorem C17_runs_maximal (weq : W → W → Bool) (hrefl : ∀ a, weq a a = true) (row : List (Option W)) :
+    let rs := Spec.runs weq row
+    (∀ run ∈ rs, 1 ≤ run.2.1 ∧ run.1 + run.2.1 ≤ row.length
+        ∧ ∀ i, run.1 ≤ i → i < run.1 + run.2.1 → ∃ w', row[i]? = some (some w') ∧ weq w' run.2.2 = true)
+    ∧ (∀ i w', row[i]? = some (some w') → ∃ run ∈ rs, run.1 ≤ i ∧ i < run.1 + run.2.1)
+    ∧ List.Pairwise (fun a b => a.1 + a.2.1 ≤ b.1) rs
+    ∧ (∀ k, ∀ a b, rs[k]? = some a → rs[k + 1]? = some b → a.1 + a.2.1 = b.1 →
+          ∃ wb, row[b.1]? = some (some wb) ∧ weq wb a.2.2 = false) := by
+  sorry
+
+/-- position of a token in the canonical order: pocket row, then per high card suited row, offsuit row, then leftovers -/
+def tokenRow (t : Token W) : Nat :=
+  let rowOf : RankPair → Nat
+    | .pocket _ => 0
+    | .suited h _ => 1 + 2 * h
+    | .ofsuit h _ => 2 + 2 * h
+  match t.kind with
+  | .bottomClosed rp => rowOf rp
+  | .doubleClosed rp _ => rowOf rp
+  | .singleRank rp => rowOf rp
+  | .singleCard _ => 1000
+
+/-- **C17 (order).** Pocket pairs first, then for each high card from ace down its suited and then its offsuit
+kickers, then the leftover single combos. -/
+theorem C17_order (wt : WText W) (r : HandRange W) (toks : List (Token W)) (h : showRangeTokens wt r = .ok toks) :
+    List.Pairwise (fun a b => tokenRow a ≤ tokenRow b) toks := by
+  sorry
+
 end EspadaVerif.C17
